@@ -507,7 +507,7 @@ type params struct {
 	rorder  []int  // order in which the runners are released
 	corder  []int  // order in which the closers (1..nc, then a late one) are released
 	trigger string // runner | close | pcancel | pdeadline
-	closeAt string // none before before2 racestart during2 afterfirst closers after after2
+	closeAt string // none before before2 racestart racestart-r during2 afterfirst closers after after2
 	grace   string // unset generous exceeded boundary tie
 	late    string // none during mix closing after gate-after gate-closing
 	extras  bool   // unsupported closer type, second Run, Add after Run
@@ -604,6 +604,8 @@ func build(p params) scenario {
 	}
 	if p.closeAt == "racestart" {
 		st = append(st, step{Op: "run", NoWait: true}, step{Op: "close"})
+	} else if p.closeAt == "racestart-r" { // the goroutine created last usually runs first: this order lets Run win
+		st = append(st, step{Op: "close", NoWait: true}, step{Op: "run"})
 	} else {
 		S("run", 0)
 	}
@@ -749,7 +751,7 @@ var (
 	rClasses = []string{"nil", "err", "canceled", "deadline", "wcanceled", "ctxerr"}
 	cClasses = []string{"nil", "err", "kcanceled"}
 	triggers = []string{"runner", "close", "pcancel", "pdeadline"}
-	closeAts = []string{"none", "before", "before2", "racestart", "during2", "afterfirst", "closers", "after", "after2"}
+	closeAts = []string{"none", "before", "before2", "racestart", "racestart-r", "during2", "afterfirst", "closers", "after", "after2"}
 	graces   = []string{"unset", "generous", "exceeded", "boundary", "tie"}
 	lates    = []string{"none", "during", "mix", "closing", "after", "gate-after", "gate-closing"}
 )
@@ -954,7 +956,7 @@ func TestCheck(t *testing.T) {
 	fmt.Printf("drove %d scenarios on the real code in %s (%d left goroutines blocked in the library)\n", len(scs), time.Since(t0).Round(time.Millisecond), dead)
 	e.Set("evaluations", int64(len(scs)))
 	e.Set("scenarios_with_goroutines_left_blocked", int64(dead))
-	e.Set("rule", "every case = one scripted life of a manager: (plain or closer manager; 0..N runners each returning nil | an error | an error wrapping DeadlineExceeded | context.Canceled | an error wrapping Canceled | ctx.Err(); 0..N closers of the types io.Closer / func(context.Context) error / func() error / func() each returning nil | an error | an error wrapping Canceled; the order in which the harness lets the runners and the closers return; what ends the run: a runner returning, Close, cancellation or deadline of the parent context; where Close is called: never, before Run (once / three times), racing the start of Run, twice concurrently during the run, after the first runner returned, while the closers run, after Run returned (once / three times); grace period unset | closers well within | closers exceed it | probed 1ms before and 1ms after | a closer returning at the very instant; AddCloser: during the run, mixed with an unsupported value, while the closers run, after Run returned, stopped between its closing check and the lock until the closers finished / ran; unsupported closer type, second Run, Add after Run). Exhaustive over result assignments x completion orders for the plain manager (<=3 runners, 4 in thorough) and for the closer manager (<=2x2, 3x3 in thorough), exhaustive over Close placement x grace mode x AddCloser mode x completion orders (<=2x2, 3x3 thorough), seeded-random above. The harness steps one action at a time and records a quiescence event (synctest.Wait) after each; non-trivial = at least two parties released, or a Close call, or a grace period; distinct by the full scenario")
+	e.Set("rule", "every case = one scripted life of a manager: (plain or closer manager; 0..N runners each returning nil | an error | an error wrapping DeadlineExceeded | context.Canceled | an error wrapping Canceled | ctx.Err(); 0..N closers of the types io.Closer / func(context.Context) error / func() error / func() each returning nil | an error | an error wrapping Canceled; the order in which the harness lets the runners and the closers return; what ends the run: a runner returning, Close, cancellation or deadline of the parent context; where Close is called: never, before Run (once / three times), racing the start of Run (either call issued first), twice concurrently during the run, after the first runner returned, while the closers run, after Run returned (once / three times); grace period unset | closers well within | closers exceed it | probed 1ms before and 1ms after | a closer returning at the very instant; AddCloser: during the run, mixed with an unsupported value, while the closers run, after Run returned, stopped between its closing check and the lock until the closers finished / ran; unsupported closer type, second Run, Add after Run). Exhaustive over result assignments x completion orders for the plain manager (<=3 runners, 4 in thorough) and for the closer manager (<=2x2, 3x3 in thorough), exhaustive over Close placement x grace mode x AddCloser mode x completion orders (<=2x2, 3x3 thorough), seeded-random above. The harness steps one action at a time and records a quiescence event (synctest.Wait) after each; non-trivial = at least two parties released, or a Close call, or a grace period; distinct by the full scenario")
 	for _, i := range []int{len(scs) / 7, len(scs) / 2, len(scs) - 3} {
 		evs, _, _ := runScenario(t, scs[i])
 		b := &tv.Batch{}
